@@ -10,7 +10,11 @@ pub mod c05;
 pub mod c06;
 pub mod c07;
 pub mod c08;
+pub mod c09;
+pub mod c10;
+pub mod c11;
 pub mod c12;
+pub mod schedutil;
 pub mod c13;
 pub mod c14;
 pub mod c15;
@@ -32,13 +36,14 @@ pub mod c17;
 pub mod c18;
 
 pub fn all() -> Vec<Check> {
-    vec![c01::check(), c02::check(), c03::check(), c04::check(), c05::check(), c06::check(), c07::check(), c08::check(), c12::check(), c13::check(), c14::check(), c15::check(), c16::check(), c17::check(), c18::check(), c19::check(), c20::check()]
+    vec![c01::check(), c02::check(), c03::check(), c04::check(), c05::check(), c06::check(), c07::check(), c08::check(), c09::check(), c10::check(), c11::check(), c12::check(), c13::check(), c14::check(), c15::check(), c16::check(), c17::check(), c18::check(), c19::check(), c20::check()]
 }
 
 pub fn child_main(args: &[String]) -> i32 {
     crate::sim::silence_panics();
     match args.first().map(|s| s.as_str()) {
         Some("c14f17") => c14::child_f17(),
+        Some("c10") => c10::child(&args[1..]),
         Some("c20coll") => c20_coll::child(&args[1..]),
         Some("c12") => c12::child_history(&args[1..]),
         Some("c12replay") => c12::child_replay(&args[1..]),
